@@ -640,7 +640,7 @@ func (e *Env) Exec(line string) string {
 				for _, it := range strings.Split(w[3], ",") {
 					kv := strings.SplitN(it, "=", 2)
 					v, _ := parseInt(kv[1])
-					hs.List = append(hs.List, &oracletypes.Holder{Address: kv[0], Value: v})
+					hs.List = append(hs.List, &oracletypes.Holder{Address: plainName(kv[0]), Value: v})
 				}
 			}
 			msg := &oracletypes.MsgHoldersClaim{Epoch: epoch, Holders: hs, Orchestrator: accStr(w[1])}
@@ -674,7 +674,7 @@ func (e *Env) DumpOracle() string {
 	}
 	if h := e.ok.GetHolders(ctx); h != nil {
 		for _, it := range h.List {
-			hs = append(hs, it.Address+"="+it.Value.String())
+			hs = append(hs, lineName(it.Address)+"="+it.Value.String())
 		}
 	}
 	ep := e.ok.GetCurrentEpoch(ctx)
@@ -1032,4 +1032,25 @@ func keysgenSign(signedBy, valHex string, nonce uint64) ([]byte, error) {
 	}
 	s := strings.TrimSpace(string(out))
 	return hex.DecodeString(strings.TrimPrefix(s, "0x"))
+}
+
+// Holder addresses are free-form strings in the oracle module.  On a protocol line an address that does not consist of
+// letters and digits only is written as `x` + hex of its bytes (such an address is never also written in plain form).
+func plainName(s string) string {
+	if strings.HasPrefix(s, "x") {
+		if b, err := hex.DecodeString(s[1:]); err == nil && len(b) > 0 {
+			return string(b)
+		}
+	}
+	return s
+}
+
+func lineName(s string) string {
+	for i := 0; i < len(s); i++ {
+		c := s[i]
+		if !(c >= '0' && c <= '9' || c >= 'a' && c <= 'z' || c >= 'A' && c <= 'Z') {
+			return "x" + hex.EncodeToString([]byte(s))
+		}
+	}
+	return s
 }
